@@ -175,6 +175,12 @@ ApplyAt(S, T, v, op) ==
                  THEN R(PutList(v, fd, SubSeq(l, 1, op.i)), OK)
                  ELSE R(v, PANIC)
          [] op.op = "LNewElement" -> R(v, ElemZero(fd.kind))
+         \* ONE list view (obtained with Mutable) kept across three calls: Append(x) [AppendMutable for
+         \* messages]; Truncate(back to the old length); Append(x) [Append(NewElement())].  Neither
+         \* call detaches the view in the reference implementations, so the view stays live.
+         [] op.op = "LRetained" ->
+              IF fd.card # "rep" THEN R(v, PANIC)
+              ELSE R(SetF(v, fd, Append(ListOf(v, fd), IF fd.kind = "message" THEN EmptyMsg ELSE op.x)), OK)
          \* ---- Map ----
          [] op.op = "MLen" -> R(v, IntR(Cardinality(DOMAIN MapOf(v, fd))))
          [] op.op = "MIsValid" -> R(v, Bool(~ReadOnly(v, fd, op)))
@@ -197,6 +203,12 @@ ApplyAt(S, T, v, op) ==
               LET m == MapOf(v, fd)
               IN IF ReadOnly(v, fd, op) THEN R(v, OK)   \* deleting from an empty read-only map is a no-op everywhere
                  ELSE R(PutMap(v, fd, [kk \in (DOMAIN m) \ {op.k} |-> m[kk]]), OK)
+         \* ONE map view kept across three calls: Set(k, x) [Mutable(k) for messages]; Clear(k);
+         \* Set(k, x) [Set(k, NewValue())] -- also when k was the only entry in between
+         [] op.op = "MRetained" ->
+              IF fd.card # "map" THEN R(v, PANIC)
+              ELSE LET m == MapOf(v, fd)
+                   IN R(SetF(v, fd, (op.k :> (IF fd.vk = "message" THEN EmptyMsg ELSE op.x)) @@ [kk \in (DOMAIN m) \ {op.k} |-> m[kk]]), OK)
          [] op.op = "MRange" -> R(v, Ret("keys", SortedKeys(fd.kk, MapOf(v, fd))))
          [] op.op = "MNewValue" -> R(v, ElemZero(fd.vk))
          [] OTHER -> R(v, Ret("unknown-op", 0))
